@@ -1,0 +1,53 @@
+//go:build verif
+
+package ssh
+
+import (
+	"io"
+	"net"
+)
+
+// Hooks for the /verif harness, property C31 (re-keying under concurrent traffic). Add-only; -tags verif.
+
+// verifRecTransport is the real transport with every writePacket reported first (the recording
+// keyingTransport): rec sees the plaintext packets in exactly the order they are pushed to the wire.
+type verifRecTransport struct {
+	*transport
+	rec func(packet []byte)
+}
+
+func (r *verifRecTransport) writePacket(p []byte) error {
+	r.rec(p)
+	return r.transport.writePacket(p)
+}
+
+// VerifNewClientHandshakeRec is VerifNewClientHandshake over a recording keyingTransport.
+func VerifNewClientHandshakeRec(conn io.ReadWriteCloser, clientVersion, serverVersion []byte, config *ClientConfig, rec func([]byte)) *VerifHandshake {
+	conf := *config
+	conf.SetDefaults()
+	tr := newTransport(conn, conf.Rand, true)
+	t := newClientTransport(&verifRecTransport{tr, rec}, clientVersion, serverVersion, &conf, "verif:22", &net.TCPAddr{IP: net.IPv4(127, 0, 0, 1), Port: 22})
+	return &VerifHandshake{t: t, tr: tr}
+}
+
+// VerifNewServerHandshakeRec is VerifNewServerHandshake over a recording keyingTransport.
+func VerifNewServerHandshakeRec(conn io.ReadWriteCloser, clientVersion, serverVersion []byte, config *ServerConfig, rec func([]byte)) *VerifHandshake {
+	conf := *config
+	conf.SetDefaults()
+	if len(conf.PublicKeyAuthAlgorithms) == 0 {
+		conf.PublicKeyAuthAlgorithms = defaultPubKeyAuthAlgos
+	}
+	tr := newTransport(conn, conf.Rand, false)
+	t := newServerTransport(&verifRecTransport{tr, rec}, clientVersion, serverVersion, &conf)
+	return &VerifHandshake{t: t, tr: tr}
+}
+
+// KexState samples, under t.mu, whether a key exchange is in progress on this side and the queue length.
+func (h *VerifHandshake) KexState() (kexInProgress bool, pending int) {
+	h.t.mu.Lock()
+	defer h.t.mu.Unlock()
+	return h.t.sentInitMsg != nil, len(h.t.pendingPackets)
+}
+
+// VerifMaxPendingPackets is the queue bound.
+const VerifMaxPendingPackets = maxPendingPackets
